@@ -119,6 +119,12 @@ def setXR (s : St) (n : Name) (x : Option XR) : St :=
 
 def emit (s : St) (e : Ev) : St := { s with trace := e :: s.trace }
 
+/-- the acknowledgement event of a claim update carrying a resourceRef -/
+def ackOf (c : Claim) : List Ev :=
+  match c.ref with
+  | some n => [.ack n]
+  | none => []
+
 def XR.foreign (x : XR) : Bool := x.cref == some .other
 
 def newXR : XR := ⟨0, some .self, true, false, false, false⟩
@@ -143,10 +149,8 @@ def exec (s : St) : Req → St × Resp
     | some cur =>
       if c.rv ≠ cur.rv then (s, .err .conflict)
       else
-        let r := pushClaim s { c with deleting := cur.deleting, fg := cur.fg }
-        (match r.2.ref with
-         | some n => emit r.1 (.ack n)
-         | none => r.1, .claim r.2)
+        let r := pushClaim { s with trace := ackOf c ++ s.trace } { c with deleting := cur.deleting, fg := cur.fg }
+        (r.1, .claim r.2)
   | .updClaimStatus rv =>
     match s.claim with
     | none => (s, .err .notFound)
@@ -247,27 +251,31 @@ def genName : Nat → List Name → (Option Name → P) → P
 
 def finish (cm : Claim) : P := statusThen cm .ok
 
+/-- ServerSideCompositeSyncer.Sync once the XR's name is known: Update(claim) with the reference,
+then the forced apply of the XR, then (if the XR has a status) Status().Update(claim); then the
+tail of Reconcile -/
+def ssaBind (cm : Claim) (n : Name) : P :=
+  .call (.updClaim { cm with ref := some n }) fun
+    | .claim cm1 =>
+      .call (.applyXR n) fun
+        | .xr x =>
+          if x.status then
+            .call (.updClaimStatus cm1.rv) fun
+              | .claim cm2 => finish cm2
+              | .err e => failWith cm1 e
+              | _ => .ret .err
+          else finish cm1
+        | .err e => failWith cm1 e
+        | _ => .ret .err
+    | .err e => failWith cm e
+    | _ => .ret .err
+
 /-- ServerSideCompositeSyncer.Sync, then the tail of Reconcile -/
 def syncSSA (cfg : Cfg) (cm : Claim) : P :=
-  let withName (n : Name) : P :=
-    .call (.updClaim { cm with ref := some n }) fun
-      | .claim cm1 =>
-        .call (.applyXR n) fun
-          | .xr x =>
-            if x.status then
-              .call (.updClaimStatus cm1.rv) fun
-                | .claim cm2 => finish cm2
-                | .err e => failWith cm1 e
-                | _ => .ret .err
-            else finish cm1
-          | .err e => failWith cm1 e
-          | _ => .ret .err
-      | .err e => failWith cm e
-      | _ => .ret .err
   match cm.ref with
-  | some n => withName n
+  | some n => ssaBind cm n
   | none => genName 10 cfg.cands fun
-      | some n => withName n
+      | some n => ssaBind cm n
       | none => statusThen cm .requeue
 
 /-- the tail of ClientSideCompositeSyncer.Sync after the XR was applied -/
@@ -281,6 +289,14 @@ def csaPost (cm1 : Claim) : P :=
     | .err e => failWith cm1 e
     | _ => .ret .err
 
+/-- `AllowUpdateIf(!cmp.Equal(old, obj))`: the desired XR (built from the XR read at the start of
+the reconcile) equals the current one, i.e. nobody wrote the XR since and it is already bound
+and labelled -/
+def csaNoop (xr : Option XR) (cur : XR) : Bool :=
+  match xr with
+  | some x => x.rv == cur.rv && x.cref == some Cid.self && x.labeled
+  | none => false
+
 /-- `s.client.Apply(ctx, xr, AllowUpdateIf(!cmp.Equal))` = APIPatchingApplicator.Apply -/
 def csaApply (xr : Option XR) (cm1 : Claim) (n : Name) : P :=
   .call (.getXR n) fun
@@ -290,9 +306,7 @@ def csaApply (xr : Option XR) (cm1 : Claim) (n : Name) : P :=
         | .err e => failWith cm1 e
         | _ => .ret .err
     | .xr cur =>
-      if (match xr with
-          | some x => x.rv == cur.rv && x.cref == some Cid.self && x.labeled
-          | none => false) then csaPost cm1
+      if csaNoop xr cur then csaPost cm1
       else
         .call (.patchXR n (xr.map XR.rv)) fun
           | .xr _ => csaPost cm1
@@ -301,59 +315,69 @@ def csaApply (xr : Option XR) (cm1 : Claim) (n : Name) : P :=
     | .err e => failWith cm1 e
     | _ => .ret .err
 
+/-- the client-side syncer's Update(claim) with a freshly generated name, then Apply -/
+def csaBindNew (xr : Option XR) (cm : Claim) (n : Name) : P :=
+  .call (.updClaim { cm with ref := some n }) fun
+    | .claim cm1 => csaApply xr cm1 n
+    | .err e => failWith cm e
+    | _ => .ret .err
+
 /-- ClientSideCompositeSyncer.Sync, then the tail of Reconcile -/
 def syncCSA (cfg : Cfg) (cm : Claim) (xr : Option XR) : P :=
   match cm.ref with
   | some n => csaApply xr cm n
   | none => genName 10 cfg.cands fun
-      | some n =>
-        .call (.updClaim { cm with ref := some n }) fun
-          | .claim cm1 => csaApply xr cm1 n
-          | .err e => failWith cm e
-          | _ => .ret .err
+      | some n => csaBindNew xr cm n
       | none => statusThen cm .requeue
+
+/-- RemoveFinalizer (Update, NotFound ignored), then the final status update -/
+def finalizeClaim (cm : Claim) : P :=
+  if cm.fin then
+    .call (.updClaim { cm with fin := false }) fun
+      | .claim cm1 => statusThen cm1 .ok
+      | .err .notFound => statusThen cm .ok
+      | .err _ => statusThen cm .requeue
+      | _ => .ret .err
+  else statusThen cm .ok
 
 /-- `meta.WasDeleted(cm)` branch -/
 def deletePath (cm : Claim) (xr : Option (Name × XR)) : P :=
-  let finalize : P :=
-    if cm.fin then
-      .call (.updClaim { cm with fin := false }) fun
-        | .claim cm1 => statusThen cm1 .ok
-        | .err .notFound => statusThen cm .ok
-        | .err _ => statusThen cm .requeue
-        | _ => .ret .err
-    else statusThen cm .ok
   match xr with
-  | none => finalize
+  | none => finalizeClaim cm
   | some (n, x) =>
     if cm.fg && x.deleting then statusThen cm .requeue
     else
       .call (.deleteXR n cm.fg) fun
-        | .ok | .err .notFound => if cm.fg then .ret .requeue else finalize
+        | .ok | .err .notFound => if cm.fg then .ret .requeue else finalizeClaim cm
         | .err _ => statusThen cm .requeue
         | _ => .ret .err
 
+/-- r.composite.Sync with the configured syncer -/
+def syncWith (cfg : Cfg) (cm : Claim) (xr : Option (Name × XR)) : P :=
+  if cfg.ssa then syncSSA cfg cm else syncCSA cfg cm (xr.map (·.2))
+
 /-- AddFinalizer, then Sync -/
 def bindPath (cfg : Cfg) (cm : Claim) (xr : Option (Name × XR)) : P :=
-  let go (cm1 : Claim) : P := if cfg.ssa then syncSSA cfg cm1 else syncCSA cfg cm1 (xr.map (·.2))
-  if cm.fin then go cm
+  if cm.fin then syncWith cfg cm xr
   else
     .call (.updClaim { cm with fin := true }) fun
-      | .claim cm1 => go cm1
+      | .claim cm1 => syncWith cfg cm1 xr
       | .err e => failWith cm e
       | _ => .ret .err
 
+def restOf (cfg : Cfg) (cm : Claim) (xr : Option (Name × XR)) : P :=
+  if cm.deleting then deletePath cm xr else bindPath cfg cm xr
+
 /-- everything after the unbound check: managed-fields Upgrade, then delete or bind -/
 def afterCheck (cfg : Cfg) (cm : Claim) (xr : Option (Name × XR)) : P :=
-  let rest (xr : Option (Name × XR)) : P := if cm.deleting then deletePath cm xr else bindPath cfg cm xr
   match xr, cfg.up with
   | some (n, x), some valid =>
     .call (.upgradeXR n x.rv valid) fun
-      | .xr x' => rest (some (n, x'))
-      | .err .notFound => rest (some (n, x))
+      | .xr x' => restOf cfg cm (some (n, x'))
+      | .err .notFound => restOf cfg cm (some (n, x))
       | .err e => failWith cm e
       | _ => .ret .err
-  | _, _ => rest xr
+  | _, _ => restOf cfg cm xr
 
 /-- the unbound check (errFmtUnbound) -/
 def checked (cfg : Cfg) (cm : Claim) (xr : Option (Name × XR)) : P :=
@@ -361,19 +385,60 @@ def checked (cfg : Cfg) (cm : Claim) (xr : Option (Name × XR)) : P :=
   | some (_, x) => if x.cref == some .other then statusThen cm .ok else afterCheck cfg cm xr
   | none => afterCheck cfg cm none
 
+/-- after the (possibly stale) claim was read: Get the referenced XR -/
+def withClaim (cfg : Cfg) (cm : Claim) : P :=
+  match cm.ref with
+  | some n =>
+    .call (.getXR n) fun
+      | .xr x => checked cfg cm (some (n, x))
+      | .err .notFound => checked cfg cm none
+      | .err _ => statusThen cm .requeue
+      | _ => .ret .err
+  | none => checked cfg cm none
+
 def reconcile (cfg : Cfg) : P :=
   .call (.getClaim cfg.pick) fun
-    | .claim cm =>
-      match cm.ref with
-      | some n =>
-        .call (.getXR n) fun
-          | .xr x => checked cfg cm (some (n, x))
-          | .err .notFound => checked cfg cm none
-          | .err _ => statusThen cm .requeue
-          | _ => .ret .err
-      | none => checked cfg cm none
+    | .claim cm => withClaim cfg cm
     | .err .notFound => .ret .ok
     | _ => .ret .err
+
+/-! ### declared call skeletons
+
+The Go calls (through a field of the receiver) that each function above mirrors, in source
+order. `Xp/Props/C06.lean` states that they equal the lists regenerated from the current source
+by go/ast on every check run (`Xp.Gen.c06Skel…`): inserting, removing or reordering an API call
+in one of these Go functions invalidates the model and breaks that obligation at once.
+`withClaim`/`checked`/`afterCheck`/`deletePath`/`finalizeClaim`/`bindPath` mirror `Reconcile`
+(`statusThen` = each `client.Status.Update`), `ssaBind`/`syncSSA` mirror the server-side `Sync`,
+`csaBindNew`/`csaApply`/`csaPost`/`syncCSA` the client-side `Sync`, `genName` mirrors
+`GenerateName`, `upgradeXR` requests mirror `Upgrade`. -/
+
+def skelReconcile : List String :=
+  ["client.Get",                      -- getClaim
+   "client.Status.Update",            -- paused (not modelled: never paused)
+   "client.Get",                      -- getXR
+   "client.Status.Update",            -- Get error
+   "client.Status.Update",            -- unbound check
+   "managedFields.Upgrade", "client.Status.Update",
+   "client.Status.Update",            -- foreground: waiting for the XR
+   "client.Delete", "client.Status.Update",
+   "claim.UnpublishConnection", "client.Status.Update",   -- no-op unpublisher
+   "claim.RemoveFinalizer", "client.Status.Update",
+   "client.Status.Update",            -- deleted
+   "claim.AddFinalizer", "client.Status.Update",
+   "composite.Sync", "client.Status.Update",
+   "client.Status.Update",            -- waiting
+   "composite.PropagateConnection", "client.Status.Update",   -- no secret: no call
+   "client.Status.Update"]            -- available
+
+def skelSsaSync : List String := ["names.GenerateName", "client.Update", "client.Patch", "client.Status.Update"]
+
+def skelCsaSync : List String :=
+  ["names.GenerateName", "client.Update", "client.Apply", "client.Status.Update", "client.Update"]
+
+def skelUpgrade : List String := ["client.Patch", "client.Patch"]
+
+def skelGenerateName : List String := ["namer.GenerateName", "reader.Get"]
 
 /-! ### environment -/
 
@@ -426,12 +491,16 @@ structure Sys where
 /-- One step of the system. `start` also models a crash/restart at any point: the
 in-flight reconcile is dropped (all controller-local state is lost) and a new one
 starts with an arbitrary cache lag, name oracle and managed-fields oracle. A crash
-after a call took effect is `callOk` followed by `start`. -/
+after a call took effect is `callOk` followed by `start`. `callErr`: the call is not applied and
+the controller sees a server error or a conflict. -/
 inductive Step : Sys → Sys → Prop where
   | env (s s' : St) (t : Option P) : Env s s' → Step ⟨s, t⟩ ⟨s', t⟩
   | start (s : St) (t : Option P) (cfg : Cfg) : Step ⟨s, t⟩ ⟨s, some (reconcile cfg)⟩
   | callOk (s : St) (r : Req) (k : Resp → P) : Step ⟨s, some (.call r k)⟩ ⟨(exec s r).1, some (k (exec s r).2)⟩
   | callErr (s : St) (r : Req) (k : Resp → P) (o : Outcome) : Step ⟨s, some (.call r k)⟩ ⟨s, some (k (errResp o r))⟩
+  /-- the call took effect but the reply was lost (timeout): the controller sees an error -/
+  | callLost (s : St) (r : Req) (k : Resp → P) (o : Outcome) :
+      Step ⟨s, some (.call r k)⟩ ⟨(exec s r).1, some (k (errResp o r))⟩
   | done (s : St) (a : Res) : Step ⟨s, some (.ret a)⟩ ⟨s, none⟩
 
 inductive Reach (s0 : St) : Sys → Prop where
